@@ -65,13 +65,41 @@ class Ctx:
         self.exhaustive = False
         self.nontrivial_extra = 0
         self.extra: dict = {}
+        self._change_scale = None
         self.module = None
         self.known = [k for k in load_known() if k.get("property") == prop and k.get("status") == "known"]
 
     # ---- budgets -------------------------------------------------------------------------------
     def n(self, quick: int, thorough: int) -> int:
         base = quick if self.tier == "quick" else thorough
+        if self.tier == "quick":
+            base = min(int(base * self.change_scale()), max(quick, thorough))
         return max(1, int(base * float(os.environ.get("VERIF_SCALE", "1"))))
+
+    def change_scale(self) -> float:
+        """change-directed budget (harness/anchors.py): a larger quick tier when a function in one of the files this
+        property is anchored in differs from the state the model was aligned with"""
+        if self._change_scale is None:
+            self._change_scale = 1.0
+            try:
+                from harness import anchors
+
+                files = []
+                for ln in (ROOT / "properties.jsonl").read_text().splitlines():
+                    if ln.strip():
+                        pj = json.loads(ln)
+                        if pj["id"] == self.prop:
+                            files = pj.get("anchors", {}).get("files", [])
+                changed = anchors.changed_for(files, REPO)
+                if changed:
+                    self._change_scale = anchors.SCALE_WHEN_CHANGED
+                    self.extra["changed_since_model_alignment"] = {
+                        "functions": changed[:40], "quick_budget_factor": anchors.SCALE_WHEN_CHANGED,
+                        "meaning": "these functions differ from the state recorded in anchors.json (the code the model was last "
+                                   "aligned with); not an alarm by itself, the case budget of this run was enlarged"}
+            except Exception as e:  # noqa: BLE001
+                self.extra["anchors_error"] = f"{type(e).__name__}: {e}"[:200]
+        return self._change_scale
 
     # ---- bookkeeping ---------------------------------------------------------------------------
     def count(self, case_key, nontrivial: bool, cls: str = "", sample=None, n: int = 1):
